@@ -9,36 +9,106 @@ import Precis.Lemmas.TableStep
 namespace Precis.C10
 open Precis Precis.Step
 
+theorem toLowerTab_toList : Gen.Std.toLowerTab.toList = Gen.Std.toLowerTabL := by
+  simp [Gen.Std.toLowerTab]
+
+theorem lowerTab_toList : Gen.Std.isLowercaseTab.toList = Gen.Std.isLowercaseTabL := by
+  simp [Gen.Std.isLowercaseTab]
+
+theorem toLowerTab_sorted : sortedKeys Gen.Std.toLowerTab.toList = true := by
+  rw [toLowerTab_toList]; exact Facts.sorted_toLower
+
+theorem lowerTab_sorted : sortedPairs Gen.Std.isLowercaseTab.toList = true := by
+  rw [lowerTab_toList]; exact Facts.sorted_lower
+
+set_option maxRecDepth 1000000 in
+theorem lower_fuel :
+    (pairsToStep Gen.Std.isLowercaseTabL).length + (kvToStep Gen.Std.toLowerTabL).length ≤ 10000 := by
+  decide +kernel
+
 /-- the model's `to_lowercase` is the specification's full lowercase mapping (same dumped data, read
 through the binary search vs. declaratively) -/
 theorem toLower_eq_spec (c : Nat) : toLower c = Spec.lowerFull c := by
-  sorry
+  unfold toLower Spec.lowerFull
+  rw [kvFind_eq_lookup _ c toLowerTab_sorted, toLowerTab_toList]
 
 /-- `char::is_lowercase(c)` implies `to_lowercase(c) = c`, for every code point (kernel-checked table fact) -/
 theorem lowercase_is_fixed (c : Nat) (h : isLowercase c = true) : toLower c = [c] := by
-  sorry
+  have h1 : eval false (pairsToStep Gen.Std.isLowercaseTabL) c = true := by
+    rw [← lowerTab_toList, ← inPairs_eq_eval _ lowerTab_sorted c]; exact h
+  have h2 : kvFind Gen.Std.toLowerTab c = eval none (kvToStep Gen.Std.toLowerTabL) c := by
+    rw [kvFind_eq_eval _ toLowerTab_sorted c, toLowerTab_toList]
+  have h3 := allVD_eval id true _ Facts.lowercase_fixed_check c
+  have h4 := eval_zipW (fun (low : Bool) (m : Option (List Nat)) => !low || m.isNone) 10000
+      false (pairsToStep Gen.Std.isLowercaseTabL) none (kvToStep Gen.Std.toLowerTabL) c lower_fuel
+  have h5 : (!(eval false (pairsToStep Gen.Std.isLowercaseTabL) c)
+      || (eval none (kvToStep Gen.Std.toLowerTabL) c).isNone) = true := by
+    rw [← h4]; exact h3
+  rw [h1, ← h2] at h5
+  have h6 : kvFind Gen.Std.toLowerTab c = none := by simpa using h5
+  unfold toLower
+  rw [h6]; rfl
 
 /-- the fast-path trigger is complete: a character that is not a trigger is its own lowercase mapping -/
 theorem trigger_complete (c : Nat) (h : hasLowercaseMapping c = false) : toLower c = [c] := by
-  sorry
+  unfold hasLowercaseMapping at h
+  simpa using h
 
 /-- what the loop does to one character is the lowercase mapping -/
 theorem caseMapChar_eq (c : Nat) : caseMapChar c = toLower c := by
-  sorry
+  unfold caseMapChar
+  cases h : isLowercase c with
+  | true => rw [if_pos rfl, lowercase_is_fixed c h]
+  | false => rw [if_neg (by simp)]
+
+theorem flatMap_id_of_no_mapping (l : List Nat) (h : ∀ c ∈ l, hasLowercaseMapping c = false) :
+    l.flatMap toLower = l := by
+  induction l with
+  | nil => rfl
+  | cons c r ih =>
+    rw [List.flatMap_cons, ih (fun x hx => h x (by simp [hx])), trigger_complete c (h c (by simp))]
+    rfl
+
+theorem specCase_eq (s : List Nat) : Spec.specCase s = s.flatMap toLower := by
+  unfold Spec.specCase
+  have : Spec.lowerFull = toLower := funext (fun c => (toLower_eq_spec c).symm)
+  rw [this]
 
 /-- the rule lowercases every character, wherever it stands -/
 theorem case_rule_eq (s : List Nat) : caseMappingRule s = .ok (Spec.specCase s) := by
-  sorry
+  unfold caseMappingRule
+  rw [specCase_eq]
+  have hf : caseMapChar = toLower := funext caseMapChar_eq
+  rw [hf]
+  cases h : findByte hasLowercaseMapping s with
+  | none =>
+    have := (findByte_none_iff _ _).mp h
+    simp only
+    rw [flatMap_id_of_no_mapping s this]
+  | some pos =>
+    obtain ⟨h1, h2⟩ := slice_at_find _ _ _ h
+    simp only [h1, h2]
+    have hpre : (s.takeWhile (fun c => !hasLowercaseMapping c)).flatMap toLower
+        = s.takeWhile (fun c => !hasLowercaseMapping c) := by
+      apply flatMap_id_of_no_mapping
+      intro c hc
+      have := List.all_eq_true.mp
+        (List.all_takeWhile (l := s) (p := fun c => !hasLowercaseMapping c)) c hc
+      simpa using this
+    conv => rhs; rw [← List.takeWhile_append_dropWhile (p := fun c => !hasLowercaseMapping c) (l := s)]
+    rw [List.flatMap_append, hpre]
 
 /-- the result for a character never depends on what precedes or follows it -/
 theorem case_context_free (a b : List Nat) : Spec.specCase (a ++ b) = Spec.specCase a ++ Spec.specCase b := by
-  sorry
+  unfold Spec.specCase
+  exact List.flatMap_append
 
 theorem case_rule_total (s : List Nat) : ∃ t, caseMappingRule s = .ok t := ⟨_, case_rule_eq s⟩
 
+set_option maxRecDepth 1000000 in
 /-- non-vacuity: a titlecase letter with no uppercase letter before it is mapped (U+1F88 → U+1F80),
 also after a multi-byte uncased character -/
 example : caseMappingRule [0x65E5, 0x1F88, 0x41] = .ok [0x65E5, 0x1F80, 0x61] := by
-  sorry
+  rw [case_rule_eq]; decide +kernel
 
 end Precis.C10
